@@ -11,7 +11,10 @@ CONSTANTS NFiles,       \* files of the batch are 1..NFiles
           Filtered      \* the message ids that match the user-supplied filter pattern
 Kinds == {"err", "warn", "note", "summary", "crash"}
 Chunk == [k : {"err"}, f : 1..NFiles, m : Msgs] \cup [k : {"warn"}, f : 1..NFiles, m : {0}]
-         \cup [k : {"note", "summary", "crash"}, f : {0}, m : {0}]
+         \cup [k : {"note", "summary"}, f : {0}, m : {0}]
+         \* a stack trace in one of three printed forms (0: the compiler's own report, exception name at the start of its line;
+         \* 1: reported by the launcher - Exception in thread "main" <name>; 2: wrapped - <wrapper>: <name>: ...)
+         \cup [k : {"crash"}, f : {0}, m : 0..2]
 
 IsCrash(cs) == \E j \in DOMAIN cs : cs[j].k = "crash"
 \* error diagnostics that count: not matching the filter
